@@ -97,6 +97,11 @@ var props = map[string]propSpec{
 		Rule: "sub-check cohort: rapid draws an operation from a table of 56 entry points (arithmetic with and without mode, QuoRem, Pow, comparisons, Min/Max, sign operations, Canonical, rounding with random dp and mode, roots, the eight exp/log functions, Frexp/Ldexp, predicates, all float/integer/rational conversions, String/MarshalText/MarshalJSON/%v, Sprintf and Decimal.Append with random specs, Format/Append with random verb and precision, Decompose) and operands together with a second encoding of each operand's value (another cohort member, a zero with another exponent, NaN with another payload, Inf with other garbage bits); the operation is evaluated on (x,y), (x',y), (x,y'), (x',y') and all results must agree in class, sign, exact value (strings byte for byte, conversion results and ok flags identically, payload strings for invalid operations). Sub-check canonical: Equal/sign, idempotence, expected bits computed from the decoded parts (exponent closest to zero over the whole cohort; canonical NaN/Inf/zero), and Canonical(a)==Canonical(b) iff a Equal b. Non-trivial = the two encodings differ in bits; distinct = distinct argument tuple.",
 		Assumptions: commonAssumptions,
 	},
+	"C20": {
+		QuickShards: 8, ThoroughShards: 16, Race: true,
+		Rule: "the harness is built with the race detector. Sub-check call: rapid draws one of 82 exported entry points (every method and function of the package, the fmt.Formatter/Scanner paths through Sprintf/Sscan/Sscanf, encoding paths) with arguments from the all-pattern Decimal generator and hostile scalars (ints 0, +-1, +-35, +-6111, +-6176, +-7000, +-100000, 2^15, 2^16, int and int32 extremes; precisions and widths up to 100001; rounding-mode bytes 0..255 incl. invalid ones; format specs from a grammar and from noise; strings and byte slices of random bytes, mutated literals, 70000-digit numerals, long '_' runs, JSON fragments; arbitrary Compose parts; big.Int/Rat/Float inputs) under a DefaultRoundingMode that may itself be invalid; asserted: no panic except the documented set, and those must panic; inputs (byte slices, big values), DefaultRoundingMode and a string returned earlier are unchanged; the same call twice gives identical bits; a watchdog reports any evaluation exceeding 120 s with its input. Sub-check concurrent: a generated list of 2..24 calls is executed by 2..16 goroutines in different orders for 1..3 rounds on shared argument values; every result must equal the sequential one and the race detector must stay silent (a detector abort is recovered from an in-flight case file). Non-trivial = call with a finite non-zero first operand, every concurrent list; distinct = distinct call or list.",
+		Assumptions: append([]string{"the Go race detector (happens-before based) reports unsynchronised conflicting accesses that occur in the executed workload; interleavings are not enumerated", "precisions/widths above 100000 are outside the stated domain and are not generated for Format/Append"}, commonAssumptions...),
+	},
 	"C01": {
 		QuickShards: 8, ThoroughShards: 16,
 		Rule: "rapid draws operand pairs (independent; exponent gap -45..45; tie/near-tie constructor at the 34/35-digit boundary; near-cancellation across cohorts; swallowed operand up to gap 12287; zeros; overflow edge) and add/sub; every pair is evaluated under all 6 modes and under all 6 DefaultRoundingMode values against the exact integer sum rounded by ref.RoundX. Non-trivial = the exact sum is not representable (rounding decides) or the operands cancel exactly; distinct = distinct (x bits, y bits, op).",
